@@ -479,6 +479,42 @@ fn c10_live(w: &mut World, cfg: &RunCfg, items: &Items, truth: &BTreeMap<(String
         Ok(Ok(m)) => m,
         _ => return Ok(()),
     };
+    // blocks damaged under an open replica, then reload() on that very instance: an error, or
+    // exactly the state of the damaged store
+    let blocks: Vec<String> = items.keys().filter(|k| k.ends_with(".delta")).cloned().collect();
+    for b in blocks {
+        let n = items[&b].len();
+        let positions: Vec<usize> = if thorough && n <= 4096 { (0..n).collect() } else { (0..10).map(|_| rng.below(n)).collect() };
+        for pos in positions {
+            let bit = rng.below(8) as u8;
+            disk.with(|d| d.map.get_mut(&b).unwrap()[pos] ^= 1 << bit);
+            w.bump("enum.damage_cases_live");
+            w.bump("fault.live_block_bitflip");
+            let what = format!("flip bit {} of byte {} of {} while a replica is open, then reload()", bit, pos, b);
+            match guard(|| m.reload().map_err(|e| e.to_string())) {
+                Ok(Ok(())) => {
+                    let d = match digest(&m) {
+                        Ok(d) => d,
+                        Err(c) => viol!(w, "damaged-read-returns", format!("damage-live-read-{}", c.class()), "{}: reading does not return: {}", what, c.text()),
+                    };
+                    let st = RefState::from_items(&disk.items());
+                    let mut wx = World::new_empty(cfg.clone());
+                    wx.prop = w.prop.clone();
+                    wx.step = w.step;
+                    if let Err(Stop::Violation(mut v)) = wx.compare_with_ref(0, &d, &st, "damaged") {
+                        v.class = format!("damage-live-reload-{}", v.class);
+                        v.detail = format!("{}: {}", what, v.detail);
+                        return Err(Stop::Violation(v));
+                    }
+                }
+                Ok(Err(_)) => w.bump("probe.damage_live_reload_err"),
+                Err(c) => viol!(w, "damaged-refresh-returns", format!("damage-live-{}", c.class()), "{}: reload does not return: {}", what, c.text()),
+            }
+            disk.with(|d| d.map.get_mut(&b).unwrap()[pos] ^= 1 << bit);
+        }
+    }
+    // back to the undamaged state before the pack cases
+    let _ = guard(|| m.reload().map_err(|e| e.to_string()));
     let packs: Vec<String> = items.keys().filter(|k| k.ends_with(".pack")).cloned().collect();
     for p in packs {
         let n = items[&p].len();
